@@ -230,4 +230,23 @@ func extractC07Round3(f *ast.File, g *gen) {
 		})
 	}
 	g.def("handleLoopBody", "List String", leanList(loop))
+
+	// (5) Close waits in its own goroutine, unconditionally: no go statement, no select, no timer in it
+	var shape []string
+	if fd := funcDecl(f, "Proxy", "Close"); fd != nil {
+		ast.Inspect(fd.Body, func(n ast.Node) bool {
+			switch x := n.(type) {
+			case *ast.GoStmt:
+				shape = append(shape, "go")
+			case *ast.SelectStmt:
+				shape = append(shape, "select")
+			case *ast.CallExpr:
+				if m := lastSel(x.Fun); m == "After" || m == "NewTimer" || m == "AfterFunc" || m == "WithTimeout" || m == "WithDeadline" {
+					shape = append(shape, m)
+				}
+			}
+			return true
+		})
+	}
+	g.def("closeShape", "List String", leanList(shape))
 }
